@@ -216,9 +216,9 @@ def write_replay(prop, res, v):
 
 # ------------------------------------------------------------------------------------------------ report
 def finish(prop, tier, seed, results, t0, *, level="model_checking", bounds=None, assumptions=None, stubs=None,
-           rule="", extra_cov=None, extra_lines=None):
+           rule="", extra_cov=None, extra_lines=None, extra_violations=0):
     findings = load_findings()
-    n_viol = 0
+    n_viol = int(extra_violations)
     known_hit = {}
     lines = []
     for r in results:
